@@ -359,7 +359,7 @@ def unit_test_for(prop, v):
         "#[test]\nfn replay() {\n"
         f"    let input = {json.dumps(v.get('input', ''))};\n"
         f"    let script: &[u8] = &{v.get('script_raw', [])};\n"
-        f"    let args = refmodel::trace::RunArgs {{ input, script, ctor: {v.get('ctor', 0)}, probes: true, nones: 3, no_text: false }};\n"
+        f"    let args = refmodel::trace::RunArgs {{ input, script, ctor: {v.get('ctor', 0)}, probes: true, nones: 3, no_text: false, split: 0 }};\n"
         "    let (trace, _, _) = run(&args, &refmodel::trace::Mode::Plain);\n"
         f"    // expected (reference): {str(v.get('expected'))[:400]}\n"
         f"    // observed when recorded: {str(v.get('observed'))[:400]}\n"
